@@ -256,14 +256,14 @@ theorem index_growth (refs : List Ref) (ri : Option Nat) (ref : Ref) :
     timestamps of the validation exchange -/
 theorem freshen_persists (cfg : Cfg) (reqH : Header) (key : Str) (stored : Entry) (refs : List Ref) (ri : Option Nat)
     (f : Freshness) (ccReq : Directives) (mv : Bool) (start t1 : Int) (r : Resp) (b : Bool) (tr : List Step) (res : Result)
-    (h304 : r.status = 304) (hid : stored.id ≠ [])
+    (h304 : r.status = 304) (hval : clientPreconditionForwarded reqH stored.resp.header = false) (hid : stored.id ≠ [])
     (h : Run (handleValidation cfg sGET reqH key stored refs ri f ccReq mv start (.resp r t1 b) (fun r => .ret r)) tr res) :
     ∃ ok, tr = [Step.setEntry stored.id
         { stored with requestedAt := start, receivedAt := t1,
                       resp := respWith stored.resp (updateStoredHeaders (Header.del stored.resp.header sAge) r.header) } ok] ∧
       res = .resp (respWith stored.resp (applyStatus .revalidated (updateStoredHeaders (Header.del stored.resp.header sAge) r.header))) := by
   unfold handleValidation at h
-  simp only [h304, decide_true, Bool.and_self, ↓reduceIte] at h
+  simp only [h304, hval, decide_true, Bool.and_self, Bool.not_false, ↓reduceIte] at h
   have hne : stored.id.isEmpty = false := by cases hs : stored.id with
     | nil => exact absurd hs hid
     | cons c cs => rfl
